@@ -149,7 +149,7 @@ def _run_1d(case, R):
         lam = float(proc.intensity_of_jumps)
         R.hit("intensity_checks")
         tol_l = 1e-8 * lam_oracle + 10 * lam_err
-        if abs(lam - lam_oracle) > tol_l:
+        if not (abs(lam - lam_oracle) <= tol_l):
             R.violation(f"1d-{ctor}-intensity", f"{label}/{ctor} level {lev}: intensity_of_jumps = {lam!r} but the cells outside the "
                         f"central one carry {lam_oracle!r} (quadrature)", {"model": mspec, "grid": g, "level": lev})
         # the truncated copy held by the process must be truncated at the grid bounds
@@ -180,7 +180,7 @@ def _run_1d(case, R):
             tol = 1e-8 * rates[k] + 1e-12 * lam_oracle + 10 * errs[k] + tol_meas
             if obs[k] < -1e-13 * lam_oracle:
                 R.violation(f"1d-{method}-negative-rate", f"{label}/{ctor}: state {axis[k]!r} has negative rate {obs[k]!r}", {"grid": g})
-            if abs(obs[k] - rates[k]) > tol:
+            if not (abs(obs[k] - rates[k]) <= tol):
                 bad.append(k)
         if bad:
             k = bad[0]
@@ -190,7 +190,7 @@ def _run_1d(case, R):
                         f"quadrature mass {rates[k]!r} (+-{errs[k]:.1e}) [{kind}]",
                         {"model": mspec, "grid": g, "level": lev, "method": method, "state_index": k, "n_bad": len(bad)})
         s = float(np.sum(obs))
-        if kind == "recorded" and abs(s - lam) > 1e-10 * lam:
+        if kind == "recorded" and not (abs(s - lam) <= 1e-10 * lam):
             R.violation(f"1d-{method}-rates-do-not-sum-to-intensity", f"{label}/{ctor}: sum of rates {s!r} != intensity {lam!r}", {"grid": g})
         if positive >= 2:
             R.nontrivial_case(label, mspec["params"], {k: v for k, v in g.items() if not k.startswith("_")}, lev, method)
@@ -231,7 +231,7 @@ def _tiling_exists(R, label, ctor, lev, method, mspec, g, model, axis, o, obs, l
     # both sides exhausted: the innermost boundary must be the central cell's (+-h/2): totals per side
     left, e1 = Q.integrate_xn(dens, float(axis[0]), float(axis[o - 1]) / 2, 0, br, alpha)
     right, e2 = Q.integrate_xn(dens, float(axis[o + 1]) / 2, float(axis[-1]), 0, br, alpha)
-    if abs(float(np.sum(obs[:o])) - left) > 1e-8 * lam + 10 * e1 + tol_meas * n or abs(float(np.sum(obs[o + 1:])) - right) > 1e-8 * lam + 10 * e2 + tol_meas * n:
+    if not (abs(float(np.sum(obs[:o])) - left) <= 1e-8 * lam + 10 * e1 + tol_meas * n and abs(float(np.sum(obs[o + 1:])) - right) <= 1e-8 * lam + 10 * e2 + tol_meas * n):
         R.violation(f"1d-{ctor}-{method}-side-totals", f"{label}/{ctor}: left/right totals {float(np.sum(obs[:o]))!r}/"
                     f"{float(np.sum(obs[o + 1:]))!r} differ from the masses outside the central cell {left!r}/{right!r}", {"grid": g})
 
@@ -331,7 +331,7 @@ def _run_nd(case, R):
             continue
         lam = float(proc.intensity_of_jumps)
         R.hit("intensity_checks")
-        if abs(lam - lam_oracle) > 1e-7 * lam_oracle + 100 * oracle.max_err:
+        if not (abs(lam - lam_oracle) <= 1e-7 * lam_oracle + 100 * oracle.max_err):
             R.violation(f"nd-{ctor}-intensity", f"{label}/{ctor}: intensity_of_jumps = {lam!r}, harness mass of the complement of the "
                         f"central cell = {lam_oracle!r}", {"model": cm, "grid": g, "level": lev})
         obs = {}
@@ -363,9 +363,9 @@ def _run_nd(case, R):
                 s = tuple(i + oi for i, oi in zip(inc, origin))
                 obs[s] = obs.get(s, 0.0) + length * lam
             kind = "measured"
-            if abs(ps - 1.0) > 1e-9:
+            if not (abs(ps - 1.0) <= 1e-9):
                 R.violation("nd-BINARYSEARCHTREEADAPTED-bucket-probabilities-do-not-sum-to-1", f"{label}: sum {ps!r}", {"grid": g})
-            if abs(float(proc.sampling.intensity_of_jumps) - lam) > 1e-10 * lam:
+            if not (abs(float(proc.sampling.intensity_of_jumps) - lam) <= 1e-10 * lam):
                 R.violation("nd-BINARYSEARCHTREEADAPTED-intensity-differs", f"{label}: sampler intensity "
                             f"{proc.sampling.intensity_of_jumps!r} != process intensity {lam!r}", {"grid": g})
         bad = []
@@ -376,7 +376,7 @@ def _run_nd(case, R):
             w = want[s]
             if o_ < -1e-13 * lam_oracle:
                 R.violation(f"nd-{method}-negative-rate", f"{label}/{ctor}: state {s} has negative rate {o_!r}", {"grid": g})
-            if abs(o_ - w) > 1e-7 * lam_oracle + 100 * oracle.max_err + tol_meas:
+            if not (abs(o_ - w) <= 1e-7 * lam_oracle + 100 * oracle.max_err + tol_meas):
                 bad.append(s)
         for s in obs:
             if s not in want and abs(obs[s]) > tol_meas:   # (an exact "never the origin" claim is C02's)
@@ -399,13 +399,13 @@ def _run_nd(case, R):
                 row = sum(v for s, v in obs.items() if s[k] == i)
                 marg = abs(oracle.U(k, float(bounds[k][0][i])) - oracle.U(k, float(bounds[k][1][i])))
                 tol = 1e-7 * lam_oracle + 100 * oracle.max_err + tol_meas * sizes[k]
-                if row > marg + tol or row < marg - min(slack, marg) - tol:
+                if not (marg - min(slack, marg) - tol <= row <= marg + tol):
                     R.violation(f"nd-{ctor}-{method}-row-sum", f"{label}/{ctor}: rates of the states with coordinate {k} = {i} sum to "
                                 f"{row!r}, marginal mass of that cell = {marg!r}, mass allowed outside the box <= {slack!r}",
                                 {"model": cm, "grid": g})
                     break
         ssum = sum(obs.values())
-        if abs(ssum - lam) > 1e-9 * lam + tol_meas * len(states):
+        if not (abs(ssum - lam) <= 1e-9 * lam + tol_meas * len(states)):
             R.violation(f"nd-{method}-rates-do-not-sum-to-intensity", f"{label}/{ctor}: sum of rates {ssum!r} != intensity {lam!r}", {"grid": g})
         if sum(1 for v in want.values() if v > 1e-12 * lam_oracle) >= 2:
             R.nontrivial_case(label, cm, {k: v for k, v in g.items() if not k.startswith("_")}, lev, method)
